@@ -1,1 +1,17 @@
 //! Hooks owned by property C10 (feature `verif-hooks`).
+//!
+//! `builtin_functions`: the qualified names (`Type.method` / `function`) of
+//! every function registered in a runtime, in registration order, so that the
+//! crash oracle can check that it exercises each of them.
+
+use crate::{Runtime, runtime::OptCtx, typechecker::scoped_display::TypeDisplay};
+
+/// Qualified name of every registered runtime function.
+pub fn builtin_functions<Ctx: OptCtx>(rt: &Runtime<Ctx>) -> Vec<String> {
+    let info = &rt.rt.type_checker.type_info;
+    rt.rt
+        .functions()
+        .iter()
+        .map(|f| f.name.display(info).to_string())
+        .collect()
+}
